@@ -38,12 +38,19 @@ class _SoloBudget(BaseException):
     pass
 
 
-def _solo_child(world, steps, overrides, calc_cfg, step_budget=None):
+def _solo_child(world, steps, overrides, calc_cfg, step_budget=None, user_filter=None):
     """steps: list of explicit ops run in order in this child (a danger op is preceded by its fire); the outcome of
     the last one is returned together with the pre-state of the weapon/ammo it may mutate."""
     lib.reset_globals()
     import logging
     logging.raiseExceptions = False
+    if user_filter not in (None, "ignore"):
+        # the warnings filter is the USER's setting, part of the environment the operation runs in: the solo run gets
+        # the same setting (and, being a pristine process, nothing the library may have added to it since)
+        import warnings
+        warnings.resetwarnings()
+        if user_filter != "reset":
+            warnings.simplefilter(user_filter)
     # normally the solo run uses the plain Atmo (which also checks that the step seam is transparent); only when the
     # simulated operation ran out of its deterministic step budget is the solo run given the same budget through the
     # seam, so that "does not terminate solo either" is decided by counting, not by a wall clock
@@ -77,8 +84,8 @@ def _solo_child(world, steps, overrides, calc_cfg, step_budget=None):
     return out
 
 
-def solo(world, steps, overrides, calc_cfg, timeout=300, step_budget=None):
-    return run_in_fork(_solo_child, (world, steps, overrides, calc_cfg, step_budget), timeout=timeout)
+def solo(world, steps, overrides, calc_cfg, timeout=300, step_budget=None, user_filter=None):
+    return run_in_fork(_solo_child, (world, steps, overrides, calc_cfg, step_budget, user_filter), timeout=timeout)
 
 
 SKIP_COMPARE = ADMIN_OPS - {"gstep"}      # the global step setter takes a float-or-quantity: it is compared
@@ -134,7 +141,10 @@ def evaluate(spec, hist, compare_admin=False):
                 fop = make_explicit(prog[j], hist["globals_at"][ti][j]["slots"])
                 steps = [dict(fop, _idx=j), eop]
                 use_ov = ov_at[j]
-            sres = solo(world, steps, use_ov, calc_cfg,
+            ufl = (hist.get("userfilter_at") or [[]])[ti][i] if hist.get("userfilter_at") else None
+            if hist.get("filter_unstable") and hist["filter_unstable"][ti][i]:
+                ufl = None          # the user changed the setting while the operation ran: either setting may have acted
+            sres = solo(world, steps, use_ov, calc_cfg, user_filter=ufl,
                         step_budget=(2 * max(1, res.get("steps", 0)) if res.get("kind") == "budget" else None))
             stats["solo_runs"] += 1
             post = (hist["post"][ti][i] or {})
@@ -182,7 +192,10 @@ def evaluate(spec, hist, compare_admin=False):
                     failed_before.add(op["calc"])
             same = (res.get("kind") == sres["kind"] and res.get("digest") == sres["digest"])
             if not same:
-                viol.append(_v("O1.digest", k, spec, ti, i, _diff_detail(res, sres)))
+                vv = _v("O1.digest", k, spec, ti, i, _diff_detail(res, sres))
+                if ufl not in (None, "ignore"):
+                    vv["sig"]["user_warning_filter"] = ufl
+                viol.append(vv)
             # state the API defines: follow the solo result
             if k == "zero":
                 if sres["kind"] == "ok":
